@@ -1,0 +1,30 @@
+//go:build verif
+// +build verif
+
+package hls
+
+import (
+	"fmt"
+	"sync/atomic"
+	"time"
+)
+
+// VerifAddSegment appends a finished (empty) memory segment with sequence number seq to the
+// playlist through addSegment, as SegmentGenerator.segmentClose does.
+func VerifAddSegment(pl *Playlist, seq int, duration float64) {
+	seg := newSegment(true)
+	seg.sequenceNo = seq
+	seg.duration = duration
+	seg.uri = fmt.Sprintf("%d.ts", seq)
+	if err := seg.file.open(""); err != nil {
+		panic(err)
+	}
+	seg.file.close()
+	pl.addSegment(seg)
+}
+
+// VerifShiftAccess moves the recorded last access d into the past: a controllable clock for
+// whoever compares LastAccessTime with time.Now (the idle-close task).
+func VerifShiftAccess(pl *Playlist, d time.Duration) {
+	atomic.AddInt64(&pl.lastAccessTime, -int64(d))
+}
